@@ -162,8 +162,8 @@ TypeName(v) == CASE v.t = "unit" -> "Unit" [] v.t = "true" -> "True" [] v.t = "f
 \* (a range counts its numbers, text its characters, bytes its bytes, a concatenation its items, a slice of a list the items
 \* it covers, a symbol list its parts), between characters, bytes and numbers, and text to number / character.  The
 \* renderings into text differ between the two stores and are pinned by no property: SKIP.
-RECURSIVE Count(_, _)
-Count(a, b) == IF a > b THEN <<>> ELSE <<MkInt(a)>> \o Count(a + 1, b)
+RECURSIVE CountUp(_, _)
+CountUp(a, b) == IF a > b THEN <<>> ELSE <<MkInt(a)>> \o CountUp(a + 1, b)
 Digits(cs) == cs # <<>> /\ \A i \in DOMAIN cs : cs[i] >= 48 /\ cs[i] <= 57
 RECURSIVE DecVal(_, _)
 DecVal(cs, i) == IF i = 0 THEN 0 ELSE DecVal(cs, i - 1) * 10 + (cs[i] - 48)
@@ -171,7 +171,7 @@ CastV(x, y) ==
   LET T == IF y.t = "type" THEN y.v ELSE TypeName(y) IN
   IF TypeName(x) = T THEN x
   ELSE IF T = "List" THEN
-     CASE x.t = "range" -> (IF IntRange(x) /\ RangeLen(x) <= 40 THEN [t |-> "list", v |-> Count(x.l.v, x.r.v)] ELSE SKIP)
+     CASE x.t = "range" -> (IF IntRange(x) /\ RangeLen(x) <= 40 THEN [t |-> "list", v |-> CountUp(x.l.v, x.r.v)] ELSE SKIP)
        [] x.t = "str" -> [t |-> "list", v |-> [i \in DOMAIN x.v |-> [t |-> "char", v |-> x.v[i]]]]
        [] x.t = "bytes" -> [t |-> "list", v |-> [i \in DOMAIN x.v |-> [t |-> "byte", v |-> x.v[i]]]]
        [] x.t = "concat" -> [t |-> "list", v |-> Flat(x)]
